@@ -306,6 +306,68 @@ def run(ctx):
     ctx.ob("R-ORDER", "C09.9", fp_, "populate prepares the latent draw after the radius of this population was stored (self.r = ... precedes prep_latent_prior on every path)", len(pc_) == 1 and bool(rs_) and pp_.cfg.must_pass(pp_.cfg.entry, pc_[0][0], rs_) and not any(pp_.cfg.can_follow(pc_[0][0], r_) for r_ in rs_), "")
     ctx.floor("C09.9", 5)
 
+    # ---- C09.10 a pre-allocated pool is read whole only when the filling loop ran to its count ---------------------------
+    # `A = empty_structured_array(N)` (every field NaN) filled by `A[i:j] = ...` inside `while n < N:` holds N valid rows only
+    # if the loop ended because its test failed.  A `break` (a cap on the number of draws, a time-out) leaves the tail
+    # unfilled: a later read of A must then be bounded by the fill counter, or be on a path the break cannot lead to
+    # (their branch guards contradict each other on an attribute the function does not assign)
+    n10 = 0
+    for f_ in prog.all_functions:
+        if f_.name != "populate" or not f_.module.name.startswith("nessai.proposal"):
+            continue
+        fa10 = None
+        pre_ = {}
+        for s_ in walk_no_nested(f_.node):
+            if isinstance(s_, ast.Assign) and len(s_.targets) == 1 and isinstance(s_.targets[0], ast.Name) and isinstance(s_.value, ast.Call) and (call_name(s_.value) or "").split(".")[-1] in ("empty_structured_array", "empty", "zeros", "full", "empty_like") and s_.value.args and not (isinstance(s_.value.args[0], ast.Constant) and s_.value.args[0].value == 0):
+                pre_.setdefault(s_.targets[0].id, []).append(s_)
+        stored_attrs = {src(t_) for s_ in walk_no_nested(f_.node) if isinstance(s_, (ast.Assign, ast.AugAssign)) for t_ in (s_.targets if isinstance(s_, ast.Assign) else [s_.target])}
+
+        def _contradict(fa_, a_, b_):
+            for e1_, t1_ in a_:
+                for e2_, t2_ in b_:
+                    if src(e1_) == src(e2_) and t1_ != t2_ and src(e1_) not in stored_attrs and not any(isinstance(x_, ast.Call) for x_ in ast.walk(e1_)):
+                        return True
+            return False
+
+        def _own_breaks(loop_):
+            out_, stack_ = [], list(loop_.body)
+            while stack_:
+                x_ = stack_.pop()
+                if isinstance(x_, ast.Break):
+                    out_.append(x_)
+                elif isinstance(x_, (ast.For, ast.While, ast.FunctionDef, ast.Lambda)):
+                    continue
+                else:
+                    stack_ += [c_ for c_ in ast.iter_child_nodes(x_) if isinstance(c_, (ast.stmt, ast.ExceptHandler))]
+            return out_
+
+        for w_ in [x_ for x_ in walk_no_nested(f_.node) if isinstance(x_, ast.While)]:
+            filled_ = {t_.value.id for s_ in ast.walk(w_) if isinstance(s_, ast.Assign) for t_ in s_.targets if isinstance(t_, ast.Subscript) and isinstance(t_.value, ast.Name) and t_.value.id in pre_}
+            if not filled_:
+                continue
+            fa10 = fa10 or FA(f_)
+            counters_ = {x_.id for x_ in ast.walk(w_.test) if isinstance(x_, ast.Name)} & {s_.target.id for s_ in ast.walk(w_) if isinstance(s_, ast.AugAssign) and isinstance(s_.target, ast.Name)}
+            breaks_ = _own_breaks(w_)
+            inside_ = {id(x_) for x_ in ast.walk(w_)}
+            par_ = {id(c_): p_ for p_ in ast.walk(f_.node) for c_ in ast.iter_child_nodes(p_)}
+            for A_ in sorted(filled_):
+                for r_ in walk_no_nested(f_.node):
+                    if not (isinstance(r_, ast.Name) and r_.id == A_ and isinstance(r_.ctx, ast.Load) and id(r_) not in inside_ and r_.lineno > w_.lineno):
+                        continue
+                    rid_ = [i_ for i_, e_ in fa10.find_expr(lambda e_, r_=r_: e_ is r_)]
+                    if not rid_:
+                        continue
+                    rf_ = guard_facts(fa10, rid_[0])
+                    if all(_contradict(fa10, guard_facts(fa10, fa10.cfg.id_of(b_)), rf_) for b_ in pre_[A_]):
+                        continue  # the pre-allocated binding cannot reach this read
+                    n10 += 1
+                    up_ = par_.get(id(r_))
+                    bounded_ = isinstance(up_, ast.Subscript) and isinstance(up_.slice, ast.Slice) and up_.slice.upper is not None and any(isinstance(x_, ast.Name) and x_.id in counters_ for x_ in ast.walk(up_.slice.upper))
+                    loose_ = [b_ for b_ in breaks_ if not _contradict(fa10, guard_facts(fa10, fa10.cfg.id_of(b_)), rf_)]
+                    ctx.ob("R-ORDER", "C09.10", f_, "a pre-allocated pool filled in a counted loop is read whole only if no `break` can end the loop early on that path (or the read is bounded by the fill counter)", bounded_ or not loose_, f"`{src(up_)[:60] if up_ is not None else A_}`" + ("" if bounded_ or not loose_ else f": the `break` at line {getattr(loose_[0], '_orig_lineno', loose_[0].lineno)} leaves rows of `{A_}` unfilled (NaN) and this read takes them"), node=r_)
+    ctx.require(n10 >= 1, "no read of a pre-allocated, loop-filled pool found in the populate methods (FlowProposal.populate expected)")
+    ctx.floor("C09.10", 1)
+
     # ---- C09.7 field order of what the proposals hand to the live array ------------------------------
     from ..rules import fieldorder as _fo
     from .. import tables as _t
@@ -369,7 +431,7 @@ def _rebinds(fa, name, a, b):
 
 
 CLAIM = {
-    "text": "Decides the gating and hand-out discipline every pool relies on: the three populate implementations (analytic, rejection, flow) each store the pool, its log-prior from model.batch_evaluate_log_prior of the pool's own rows (directly or through a helper whose body is checked), its log-likelihood from model.batch_evaluate_log_likelihood(self.samples) and a fresh permutation of exactly the pool rows before setting populated, and never touch the pool afterwards; indices are only assigned empty / a permutation and consumed by pop() in draw(), which returns the row at the popped index and marks an exhausted pool unpopulated; flow-generated points returned in physical space are exactly the outputs of check_prior_bounds (single in_bounds mask); INS draws pass an in_unit_hypercube mask, then the prior evaluation, then a finite-prior mask before they are appended / returned; every likelihood-evaluation site outside Model is in a reviewed table naming the gate in front of it; and (R-PAIR) arrays describing the same rows are always masked / indexed together - which found and repaired an IndexError in FlowProposal.backward_pass. The three rejection steps have the documented shape (weights = log prior - log proposal density of the same points, normalised by the (running) maximum, one uniform per point, pool = accepted rows); the prime-space prior bounds - the only prior gate of the x'-prior path - are recomputed after every write of the rescaling bounds; pools are stored in canonical field order. Constructor-derived state never goes stale (R-DERIVED: for every class whose __init__ derives an attribute from another and never recomputes it, no later store to the input on a receiver of that type), the latent draw function of a radius-truncated prior is built from the current radius on every path and after the radius of this population was stored (C09.9); positional views are combined only with scalars (with C01.7).",
+    "text": "Decides the gating and hand-out discipline every pool relies on: the three populate implementations (analytic, rejection, flow) each store the pool, its log-prior from model.batch_evaluate_log_prior of the pool's own rows (directly or through a helper whose body is checked), its log-likelihood from model.batch_evaluate_log_likelihood(self.samples) and a fresh permutation of exactly the pool rows before setting populated, and never touch the pool afterwards; indices are only assigned empty / a permutation and consumed by pop() in draw(), which returns the row at the popped index and marks an exhausted pool unpopulated; flow-generated points returned in physical space are exactly the outputs of check_prior_bounds (single in_bounds mask); INS draws pass an in_unit_hypercube mask, then the prior evaluation, then a finite-prior mask before they are appended / returned; every likelihood-evaluation site outside Model is in a reviewed table naming the gate in front of it; and (R-PAIR) arrays describing the same rows are always masked / indexed together - which found and repaired an IndexError in FlowProposal.backward_pass. The three rejection steps have the documented shape (weights = log prior - log proposal density of the same points, normalised by the (running) maximum, one uniform per point, pool = accepted rows); the prime-space prior bounds - the only prior gate of the x'-prior path - are recomputed after every write of the rescaling bounds; pools are stored in canonical field order. Constructor-derived state never goes stale (R-DERIVED: for every class whose __init__ derives an attribute from another and never recomputes it, no later store to the input on a receiver of that type), the latent draw function of a radius-truncated prior is built from the current radius on every path and after the radius of this population was stored (C09.9); positional views are combined only with scalars (with C01.7). A pool array that is pre-allocated (NaN rows) and filled inside a counted loop is read whole only on paths no `break` of that loop can lead to, or through a slice bounded by the fill counter (C09.10).",
     "note": "Does not decide that the pool is distributed as the prior restricted to the contour (statistical), the exact pool size, or latent-contour membership (numeric). Row classes are inferred from a table of length-preserving callees (sa/rules/pair.py); arrays of unrelated origin are assumed compatible.",
 }
 
@@ -378,6 +440,7 @@ _IP = "nessai/proposal/importance.py"
 _RJ = "nessai/proposal/rejection.py"
 _AN = "nessai/proposal/analytic.py"
 MUTANTS = [
+    {"id": "draw-cap-in-prefilled-branch", "file": "nessai/proposal/flowproposal.py", "old": "                logger.debug(\"n accepted: %s / %s\", n_accepted, N)\n", "new": "                logger.debug(\"n accepted: %s / %s\", n_accepted, N)\n                if n_proposed > max_samples:\n                    break\n", "expect": "C09.10"},
     {"id": "latent-draw-before-radius", "file": _FP, "old": "        self.prep_latent_prior()\n", "new": "", "count": 1, "expect": "C09.9"},
     {"id": "truncated-gaussian-radius-assigned", "file": _FP, "old": "            self._draw_func = self._populate_dist.sample", "new": "            self._populate_dist.radius = self.r\n            self._draw_func = self._populate_dist.sample", "expect": "derives once"},
     {"id": "prime-prior-bounds-stale", "file": "nessai/reparameterisations/rescale.py", "old": "            logger.debug(f\"New bounds: {self.bounds}\")\n            self.update_prime_prior_bounds()", "new": "            logger.debug(f\"New bounds: {self.bounds}\")", "expect": "the only prior gate of the x'-prior path"},
